@@ -22,6 +22,7 @@ type Config struct {
 	Verbose      bool
 	NoContracts  map[string]bool // callees to inline even though they have contracts
 	ForceModular map[string]bool // callees summarised by havoc + contract even without ensures/assigns
+	Interference bool // shared stores (bigcache) may be changed by other goroutines between two calls
 	OnlyContract map[string]bool
 }
 
